@@ -1,33 +1,38 @@
 #!/venv/bin/python
 """Evaluate a seeded change: tools/seedtest.py <seed-id> <out-dir-of-agent> <property> [--tier quick] [--needs "..."]
 Confirms the demonstration (passes on /repo, fails with the patch), runs the property's check with the
-patch applied to /repo, undoes the patch, and stores /verif/seeded/<seed-id>/."""
+patch applied to a scratch worktree (SKMATTER_SRC), undoes the patch, and stores /verif/seeded/<seed-id>/."""
 import json, os, shutil, subprocess, sys, time
 sid, src, prop = sys.argv[1], sys.argv[2], sys.argv[3]
 tier = sys.argv[sys.argv.index("--tier") + 1] if "--tier" in sys.argv else "quick"
 needs = sys.argv[sys.argv.index("--needs") + 1] if "--needs" in sys.argv else open(os.path.join(src, "notes.txt")).read()[:1500]
 others = [a for a in sys.argv[4:] if a.startswith("C") and len(a) == 3]
+# the patch is applied to a scratch worktree of /repo's HEAD (never to /repo itself, which registered checks may be using)
 def sh(cmd, **kw):
     return subprocess.run(cmd, shell=True, stdout=subprocess.PIPE, stderr=subprocess.STDOUT, text=True, **kw)
-st = sh("git -C /repo status --porcelain")
-assert st.stdout.strip() == "", "repo not clean: " + st.stdout
+WT = os.environ.get("SEEDTEST_WT", "/tmp/wt_seedtest")
+if not os.path.isdir(WT):
+    sh("git -C /repo worktree add -f --detach %s HEAD" % WT)
+sh("git -C %s checkout -q --detach %s && git -C %s checkout -- ." % (WT, sh("git -C /repo rev-parse HEAD").stdout.strip(), WT))
+st = sh("git -C %s status --porcelain" % WT)
+assert st.stdout.strip() == "", "worktree not clean: " + st.stdout
 patch = os.path.join(src, "patch.diff")
 demo = os.path.join(src, "demo.py")
 d0 = sh("PYTHONPATH=/repo/src /venv/bin/python %s" % demo)
-ap = sh("git -C /repo apply %s" % patch)
+ap = sh("git -C %s apply %s" % (WT, patch))
 res = {}
 try:
     assert ap.returncode == 0, "patch does not apply: " + ap.stdout
-    d1 = sh("PYTHONPATH=/repo/src /venv/bin/python %s" % demo)
+    d1 = sh("PYTHONPATH=%s/src /venv/bin/python %s" % (WT, demo))
     for p in [prop] + others:
         t0 = time.time()
-        r = sh("cd /verif && VERIF_SEED=%s ./check %s --tier %s" % (os.environ.get("VERIF_SEED", "0"), p, tier))
+        r = sh("cd /verif && SKMATTER_SRC=%s/src VERIF_SEED=%s ./check %s --tier %s" % (WT, os.environ.get("VERIF_SEED", "0"), p, tier))
         viol = [l for l in r.stdout.splitlines() if l.startswith("VIOLATION")]
         res[p] = {"exit": r.returncode, "violation_lines": len(viol), "first": viol[:2], "wall_s": round(time.time() - t0, 1),
                   "tail": r.stdout.splitlines()[-2:]}
 finally:
-    sh("git -C /repo checkout -- .")
-clean = sh("git -C /repo status --porcelain").stdout.strip() == ""
+    sh("git -C %s checkout -- ." % WT)
+clean = sh("git -C %s status --porcelain" % WT).stdout.strip() == ""
 out = os.path.join("/verif/seeded", sid)
 os.makedirs(out, exist_ok=True)
 shutil.copy(patch, os.path.join(out, "patch.diff"))
